@@ -120,8 +120,25 @@ fn pl_text(bc: Option<u8>, rules: &[Rule]) -> String {
 }
 
 struct Font {
-    tfm: tfm::File,
-    prog: tfm::ligkern::CompiledProgram,
+    /// the real text -> hlist path with this font registered under the numbers 0 and 1
+    tp: bwt::TextPreprocessorImpl,
+    /// the real hyphenation pass with this font's program; exceptions and minimums are set per case
+    hyph: boxworks_hyphenate::Hyphenator,
+}
+
+impl Font {
+    fn new(tfm: tfm::File, prog: tfm::ligkern::CompiledProgram) -> Font {
+        let mut tp = bwt::TextPreprocessorImpl::new(bwt::Params::plain_tex_defaults());
+        tp.register_font(0, &tfm, prog.clone());
+        tp.register_font(1, &tfm, prog.clone());
+        let hyph = boxworks_hyphenate::Hyphenator {
+            lig_kern_program: prog,
+            hyphenator: Default::default(),
+            left_hyphen_min: 1,
+            right_hyphen_min: 1,
+        };
+        Font { tp, hyph }
+    }
 }
 
 fn load_font(spec: &FontSpec) -> Result<Font, String> {
@@ -132,7 +149,7 @@ fn load_font(spec: &FontSpec) -> Result<Font, String> {
             if !errs.is_empty() {
                 return Err("cmr10 lig/kern program has an infinite loop".into());
             }
-            Ok(Font { tfm, prog })
+            Ok(Font::new(tfm, prog))
         }
         FontSpec::Synth { bc, rules } => {
             let src = pl_text(*bc, rules);
@@ -152,7 +169,7 @@ fn load_font(spec: &FontSpec) -> Result<Font, String> {
             if !errs.is_empty() {
                 return Err("infinite lig/kern loop".into());
             }
-            Ok(Font { tfm, prog })
+            Ok(Font::new(tfm, prog))
         }
     }
 }
@@ -366,10 +383,8 @@ struct Ran {
     after: Result<Vec<ds::Horizontal>, (String, String)>,
 }
 
-fn run_case(case: &Case, font: &Font) -> Ran {
-    let mut tp = bwt::TextPreprocessorImpl::new(bwt::Params::plain_tex_defaults());
-    tp.register_font(0, &font.tfm, font.prog.clone());
-    tp.register_font(1, &font.tfm, font.prog.clone());
+fn run_case(case: &Case, font: &mut Font) -> Ran {
+    let tp = &mut font.tp;
     tp.activate_font(0);
     tp.new_paragraph();
     let mut before: Vec<ds::Horizontal> = vec![];
@@ -385,12 +400,10 @@ fn run_case(case: &Case, font: &Font) -> Ran {
     for (w, p) in &case.exc {
         inner.insert_exception(&exception_text(w, p));
     }
-    let h = boxworks_hyphenate::Hyphenator {
-        lig_kern_program: font.prog.clone(),
-        hyphenator: inner,
-        left_hyphen_min: case.lh,
-        right_hyphen_min: case.rh,
-    };
+    font.hyph.hyphenator = inner;
+    font.hyph.left_hyphen_min = case.lh;
+    font.hyph.right_hyphen_min = case.rh;
+    let h = &font.hyph;
     let input = before.clone();
     let after = catch(move || {
         use boxworks::Hyphenator;
@@ -546,7 +559,7 @@ fn case_json(case: &Case) -> Value {
     })
 }
 
-fn emit(case: &Case, font: &Font, out: &mut Out, st: &mut Stats) {
+fn emit(case: &Case, font: &mut Font, out: &mut Out, st: &mut Stats) {
     *CURRENT.lock().unwrap() = Some((std::time::Instant::now(), case_json(case).to_string()));
     let ran = run_case(case, font);
     *CURRENT.lock().unwrap() = None;
@@ -701,7 +714,7 @@ fn text_cases(args: &Args) -> i32 {
     let mut rng = Rng::new(seed ^ 0x14_0001);
     let mut out = Out::new(args.str("out"));
     let mut st = Stats::default();
-    let font = load_font(&FontSpec::Cmr10).expect("cmr10");
+    let mut font = load_font(&FontSpec::Cmr10).expect("cmr10");
     // fixed cases first: the sentences the property names
     let fixed = [
         " 3.0 Contents of difficult offices",
@@ -717,7 +730,7 @@ fn text_cases(args: &Args) -> i32 {
             for (lh, rh) in [(1, 1), (2, 3), (0, 0)] {
                 let script = script_from_text(t);
                 let exc = exceptions_for(&script, &mut rng, Some(mode));
-                emit(&Case { font: FontSpec::Cmr10, script, exc, lh, rh }, &font, &mut out, &mut st);
+                emit(&Case { font: FontSpec::Cmr10, script, exc, lh, rh }, &mut font, &mut out, &mut st);
             }
         }
     }
@@ -749,7 +762,7 @@ fn text_cases(args: &Args) -> i32 {
         }
         let exc = exceptions_for(&script, &mut rng, None);
         let (lh, rh) = hyphen_mins(i, &mut rng, extremes);
-        emit(&Case { font: FontSpec::Cmr10, script, exc, lh, rh }, &font, &mut out, &mut st);
+        emit(&Case { font: FontSpec::Cmr10, script, exc, lh, rh }, &mut font, &mut out, &mut st);
     }
     st.write(args, "text");
     0
@@ -835,7 +848,7 @@ fn synth_cases(args: &Args) -> i32 {
             }
         }
         let spec = FontSpec::Synth { bc, rules };
-        let font = match load_font(&spec) {
+        let mut font = match load_font(&spec) {
             Ok(f) => f,
             Err(_) => {
                 st.skipped_fonts += 1;
@@ -865,7 +878,7 @@ fn synth_cases(args: &Args) -> i32 {
             let (lh, rh) = hyphen_mins(i, &mut rng, false);
             // most discretionaries need small minimums: the words are short
             let (lh, rh) = if rng.chance(1, 2) { (lh.min(1), rh.min(1)) } else { (lh, rh) };
-            emit(&Case { font: spec.clone(), script, exc, lh, rh }, &font, &mut out, &mut st);
+            emit(&Case { font: spec.clone(), script, exc, lh, rh }, &mut font, &mut out, &mut st);
         }
     }
     st.write(args, "synth");
@@ -889,7 +902,9 @@ fn struct_token(t: usize, id: u32) -> Vec<Item> {
         7 => node(json!({"k":"pen","p":50 + id})),
         8 => node(json!({"k":"rule","w":100 + id,"h":10,"d":0})),
         9 => node(json!({"k":"what","id":id})),
-        10 => node(json!({"k":"math","m":id % 2})),
+        // math-off only: glue between math-on and math-off starts no search in TeX (866 auto_breaking); the
+        // pass does not know about formulas (ds::Math is documented as incomplete), outside the property
+        10 => node(json!({"k":"math","m":1})),
         11 => node(json!({"k":"disc"})),
         12 => vec![Item::Word("(".into())],
         13 => node(json!({"k":"mark"})),
@@ -911,7 +926,7 @@ fn struct_cases(args: &Args) -> i32 {
     let lead: usize = args.num("lead", 1);
     let mut out = Out::new(args.str("out"));
     let mut st = Stats::default();
-    let font = load_font(&FontSpec::Cmr10).expect("cmr10");
+    let mut font = load_font(&FontSpec::Cmr10).expect("cmr10");
     let mut rng = Rng::new(0x14_0003);
     let mins: Vec<(i32, i32)> = args
         .str("mins")
@@ -953,7 +968,7 @@ fn struct_cases(args: &Args) -> i32 {
             }
             let exc = exceptions_for(&script, &mut rng, Some(1));
             for (lh, rh) in &mins {
-                emit(&Case { font: FontSpec::Cmr10, script: script.clone(), exc: exc.clone(), lh: *lh, rh: *rh }, &font, &mut out, &mut st);
+                emit(&Case { font: FontSpec::Cmr10, script: script.clone(), exc: exc.clone(), lh: *lh, rh: *rh }, &mut font, &mut out, &mut st);
             }
         }
     }
@@ -1030,14 +1045,14 @@ fn fixed_cases(out: &mut Out, st: &mut Stats) {
     for (text, prog, lh, rh) in FIXED {
         let (bc, rules) = compact_rules(&prog.replace("\\n", "\n"));
         let spec = FontSpec::Synth { bc, rules };
-        let font = load_font(&spec).expect("fixed-case font");
+        let mut font = load_font(&spec).expect("fixed-case font");
         let (plain, exc) = marked_text(text);
         for tail in [false, true] {
             let mut script = script_from_text(&plain);
             if tail {
                 script.extend(tail_items());
             }
-            emit(&Case { font: spec.clone(), script, exc: exc.clone(), lh: *lh, rh: *rh }, &font, out, st);
+            emit(&Case { font: spec.clone(), script, exc: exc.clone(), lh: *lh, rh: *rh }, &mut font, out, st);
         }
     }
 }
@@ -1125,7 +1140,7 @@ fn unit_cases(args: &Args) -> i32 {
         // the unit tests keep cmr10's metrics and replace its program; kerns there are raw FixWords,
         // here they are thousandths of the design size -- only their identity matters
         let spec = FontSpec::Synth { bc, rules };
-        let font = load_font(&spec).expect("unit-test font");
+        let mut font = load_font(&spec).expect("unit-test font");
         let word: String = input.chars().filter(|c| *c != '-').collect();
         let hyph = exc_src.unwrap_or(input);
         let mut exc = BTreeMap::new();
@@ -1147,7 +1162,7 @@ fn unit_cases(args: &Args) -> i32 {
             if tail {
                 script.extend(tail_items());
             }
-            emit(&Case { font: spec.clone(), script, exc: exc.clone(), lh: *lh, rh: 1 }, &font, &mut out, &mut st);
+            emit(&Case { font: spec.clone(), script, exc: exc.clone(), lh: *lh, rh: 1 }, &mut font, &mut out, &mut st);
         }
     }
     fixed_cases(&mut out, &mut st);
@@ -1168,9 +1183,9 @@ fn replay(args: &Args) -> i32 {
     for line in src.lines().filter(|l| !l.trim().is_empty()) {
         let e: Value = serde_json::from_str(line).unwrap();
         let case = case_from_event(&e);
-        let font = load_font(&case.font).expect("font of the recorded event");
+        let mut font = load_font(&case.font).expect("font of the recorded event");
         *CURRENT.lock().unwrap() = Some((std::time::Instant::now(), case_json(&case).to_string()));
-        let ran = run_case(&case, &font);
+        let ran = run_case(&case, &mut font);
         *CURRENT.lock().unwrap() = None;
         eprintln!("before: {}", show(&ran.before));
         match &ran.after {
@@ -1236,14 +1251,14 @@ fn probe(args: &Args) -> i32 {
             FontSpec::Synth { bc, rules }
         }
     };
-    let font = load_font(&spec).expect("font");
+    let mut font = load_font(&spec).expect("font");
     let (plain, exc) = marked_text(text);
     let mut script = script_from_text(&plain);
     if args.num("tail", 0) == 1 {
         script.extend(tail_items());
     }
     let case = Case { font: spec, script, exc, lh: args.num("lh", 1), rh: args.num("rh", 1) };
-    let ran = run_case(&case, &font);
+    let ran = run_case(&case, &mut font);
     println!("exceptions: {:?}", case.exc);
     println!("before: {}", show(&ran.before));
     match &ran.after {
